@@ -135,6 +135,14 @@ def format_production_set(productions):
 _cached_modules = {}
 
 
+def _end_of_input_location(tokens):
+    """Returns the location just past the last of `tokens`, or None."""
+    if not tokens:
+        return None
+    end = tokens[-1].source_location.end
+    return parser_types.SourceLocation(end, end)
+
+
 def parse_module_text(source_code, file_name):
     """Parses the text of a module, returning a module-level IR.
 
@@ -168,7 +176,13 @@ def parse_module_text(source_code, file_name):
             return _IrDebugInfo(
                 None,
                 debug_info,
-                [error.make_error_from_parse_error(file_name, parse_result.error)],
+                [
+                    error.make_error_from_parse_error(
+                        file_name,
+                        parse_result.error,
+                        end_of_input_location=_end_of_input_location(tokens),
+                    )
+                ],
             )
         debug_info.parse_tree = parse_result.parse_tree
         used_productions = set()
